@@ -78,10 +78,12 @@ type world struct {
 	lastMutRet map[string]time.Time
 	phase    int
 	pollBound time.Duration
+	// C06 "expwait" mode: several waiters parked across one expiry instant
+	expAt map[string]time.Time
 }
 
 func New(c *sim.Case) (sim.World, error) {
-	return &world{c: c, mode: c.Mode, allVers: map[string]string{}, states: map[string][]keyState{}, lastMutRet: map[string]time.Time{}}, nil
+	return &world{c: c, mode: c.Mode, allVers: map[string]string{}, states: map[string][]keyState{}, lastMutRet: map[string]time.Time{}, expAt: map[string]time.Time{}}, nil
 }
 
 func (w *world) prop() string { return w.c.Prop }
@@ -219,6 +221,13 @@ func (w *world) runTask(ts *taskState, t sim.Task) {
 func (w *world) doOp(ctx context.Context, ts *taskState, op sim.Op, i int) {
 	e := w.e
 	seq := w.mode == "seq" || w.mode == "exp"
+	if w.mode == "expwait" && (op.K == "put" || op.K == "create") && op.D > 0 {
+		defer func(k string, at time.Time) {
+			if _, ok := w.expAt[k]; !ok {
+				w.expAt[k] = at
+			}
+		}(op.S, time.Now().Add(time.Duration(op.D)))
+	}
 	conc := w.mode == "conc"
 	wmode := w.mode == "wait"
 	t0 := time.Now()
@@ -336,9 +345,16 @@ func (w *world) doOp(ctx context.Context, ts *taskState, op sim.Op, i int) {
 		keys := split(op.S)
 		vals := split(op.V)
 		exp := expOf(op.D, t0)
+		// E != 0: bit j says whether record j carries the expiry (mixed batches)
+		exps := make([]*time.Time, len(keys))
+		for j := range keys {
+			if op.E == 0 || op.E&(1<<uint(j)) != 0 {
+				exps[j] = exp
+			}
+		}
 		var recs []kvs.Record
 		for j, k := range keys {
-			rec := kvs.Record{Key: k, Value: []byte(vals[j]), ExpiresAt: exp}
+			rec := kvs.Record{Key: k, Value: []byte(vals[j]), ExpiresAt: exps[j]}
 			if op.F {
 				// a caller that passes records it read earlier (Version set)
 				rec.Version = ts.pickVer(k, 0)
@@ -348,7 +364,7 @@ func (w *world) doOp(ctx context.Context, ts *taskState, op sim.Op, i int) {
 		err := ts.cl.PutMany(ctx, recs)
 		o = outcome{Err: classify(err)}
 		if seq {
-			msg = w.m.applyPutMany(keys, vals, exp, &o)
+			msg = w.m.applyPutMany(keys, vals, exps, &o)
 		}
 		if conc {
 			for j, k := range keys {
@@ -594,6 +610,28 @@ func (w *world) doWait(ctx context.Context, ts *taskState, op sim.Op, i int, seq
 		if o.Err == "ErrNotExist" {
 			if r, ok := w.m.recs[key]; ok && r.exp != nil {
 				_ = r
+			}
+		}
+		return
+	}
+	if w.mode == "expwait" {
+		exp, written := w.expAt[key]
+		if !written || ver == "" || strings.HasPrefix(ver, "01BOGUS") {
+			return // the record was not there when the waiter started: nothing to judge
+		}
+		slack := w.pollBound + 8*e.RT.MaxParked
+		switch o.Err {
+		case "ErrNotExist":
+			if t1.Before(exp.Add(-2 * time.Millisecond)) {
+				e.Violate("C06", "live_record_dropped", "[%s backend] WaitForVersionChange(%q) of %s returned ErrNotExist %v before the record's expiration: a record whose expiration lies in the future was dropped", w.be.Kind, key, ts.name, exp.Sub(t1))
+			} else {
+				e.Probe("waiter_released_by_expiry")
+			}
+		case "ctx":
+			if ws.cancelAt.After(exp.Add(slack)) {
+				e.Violate("C06", "expired_not_as_deleted", "[%s backend] WaitForVersionChange(%q) of %s (one of several waiters on the key) was still blocked %v after the record expired and ended only with its context: an expired record must end the wait with ErrNotExist", w.be.Kind, key, ts.name, ws.cancelAt.Sub(exp))
+			} else {
+				e.Probe("waiter_cancelled_before_expiry")
 			}
 		}
 		return
